@@ -351,6 +351,47 @@ func (c *chunkReader) Read(p []byte) (int, error) {
 	return n, nil
 }
 
+// FailingEntropy yields the first `after` bytes of data (in pieces) and then fails: an entropy source that breaks in the
+// middle of a read. Callers must report the error, and whatever they absorbed must not leak into later calls.
+func (r *Rng) FailingEntropy(data []byte, after int) io.Reader {
+	if after > len(data) {
+		after = len(data)
+	}
+	return &failReader{inner: r.Entropy(data[:after]), left: after}
+}
+
+type failReader struct {
+	inner io.Reader
+	left  int
+}
+
+func (f *failReader) Read(p []byte) (int, error) {
+	if f.left <= 0 {
+		return 0, io.ErrUnexpectedEOF
+	}
+	if len(p) > f.left {
+		p = p[:f.left]
+	}
+	n, err := f.inner.Read(p)
+	f.left -= n
+	if err != nil || f.left <= 0 && n == 0 {
+		return n, io.ErrUnexpectedEOF
+	}
+	return n, nil
+}
+
+// HighBitVariants returns b with each of the bits 253, 254, 255 set (and all three): values at or above 2^253 > L that a
+// decoder masking or ignoring top bits would take for b
+func HighBitVariants(b []byte) [][]byte {
+	var out [][]byte
+	for _, m := range []byte{0x20, 0x40, 0x80, 0xe0} {
+		c := append([]byte(nil), b...)
+		c[31] |= m
+		out = append(out, c)
+	}
+	return out
+}
+
 // Entropy is an entropy source that yields exactly data, in pieces of a size drawn from {1, 7, 31, all}.
 func (r *Rng) Entropy(data []byte) io.Reader {
 	return &chunkReader{data: append([]byte(nil), data...), chunk: []int{1, 7, 31, len(data) + 1}[r.Intn(4)]}
